@@ -111,13 +111,6 @@ class LocalInference:
                     alpha *= 0.5
             prev_l = l
 
-        # the loop examines the loss of every iterate except the last one
-        if iters > 0 and t <= 50 and alpha > 1e-8 and self._marginal_loss(mu)[0] > l:
-            if self.log: print('Reducing learning rate and restarting', alpha/2)
-            model.potentials = theta0
-            model.messages = messages0
-            return self.mirror_descent_auto(alpha/2, iters, callback)
-
         # run some extra iterations with no gradient update to make sure things are primal feasible
         for _ in range(1000):
             if model.primal_feasibility(mu) < 1.0:
@@ -125,6 +118,13 @@ class LocalInference:
             mu = model.belief_propagation(theta)
             if callback is not None:
                 callback(mu)
+
+        # the loop examines the loss of every iterate except the one that is returned
+        if iters > 0 and t <= 50 and alpha > 1e-8 and self._marginal_loss(mu)[0] > l:
+            if self.log: print('Reducing learning rate and restarting', alpha/2)
+            model.potentials = theta0
+            model.messages = messages0
+            return self.mirror_descent_auto(alpha/2, iters, callback)
         return l, theta, mu
 
     def mirror_descent(self, measurements, total=None, initial_alpha=10.0, callback=None):
